@@ -379,6 +379,11 @@ class C16(Property):
                    T + G(1, 3, 4) + T + T + G(1, 3, 4)})
         cs.append({"kind": "cachew", "limit": 0, "expire_ms": e2, "ops":
                    [["set", 1, 10, es[0]]] + G(1) + T + G(1) + [["set", 2, 20, e1], ["set", 2, 21, es[0]]] + G(2) + T + G(2)})
+        # values of uncomparable dynamic type (slices) / not equal to themselves (NaN) live and expire like any other
+        for w in (1, 3):
+            cs.append({"kind": "cachew", "limit": 0, "expire_ms": e2, "wrap": w, "ops":
+                       [["set", 1, 10, e2], ["set", 2, 20, e1], ["take", 3, 30]] + G(1, 2, 3) + T + G(1, 2, 3) + [["set", 2, 21, e1]] + T +
+                       G(1, 2, 3) + [["held"]] + T + G(1, 2, 3) + [["held"], ["size"]]})
         # limit set; Del k (explicit / by expiry) immediately followed by Set k; ticks past the due tick
         for lim in (1, 2):
             cs.append({"kind": "cachew", "limit": lim, "expire_ms": e2, "ops":
@@ -447,6 +452,9 @@ class C16(Property):
             # a second instance of the same kind driven alongside (state shared between instances)
             if c["kind"] in ("window", "safemap", "queue", "ring", "set", "cache", "cachew") and rng.random() < 0.15:
                 c["twin"] = True
+            # cache values that cannot be compared with == (slices, maps) or differ from themselves (NaN)
+            if c["kind"] in ("cache", "cachew", "cache_take2") and rng.random() < 0.25:
+                c["wrap"] = rng.choice([1, 1, 2, 3])
             cases.append(c)
         # SafeMap histories through several generation switches (tens of thousands of primitive
         # operations each; they are evaluated on cores of their own)
@@ -1040,7 +1048,7 @@ class C16(Property):
             if ph == "collide":
                 inner += [["del", c] for c in cols]
             elif ph == "bulk":
-                n = rng.randint(600, 1500)
+                n = rng.randint(600, 1000)
                 base = max(1000, (cols[0] if cols else 1000) - rng.randrange(n))
                 inner.append(["delseq", base, n])
             elif ph == "present" and others:
@@ -1059,7 +1067,7 @@ class C16(Property):
             elif ph == "probe":
                 inner.append(rng.choice([["held"], ["size"]]))
             elif ph == "setbulk":
-                n = rng.randint(100, 300)
+                n = rng.randint(60, 200)
                 inner += [["setseq", 5000, n, val()] + ex(), ["delseq", 5000 + rng.randint(0, 3), n]]
         return inner or [["del", (cols or [1000])[0]]]
 
@@ -1071,7 +1079,7 @@ class C16(Property):
         for _ in range(rng.randint(0, 6)):
             o = rng.choice(small)
             ops.append(rng.choice([["set", o, val()], ["take", o, val()], ["get", o], ["del", o]]))
-        for _ in range(rng.randint(1, 3)):
+        for _ in range(rng.randint(1, 2)):
             k = rng.choice(small)
             others = [x for x in small if x != k]
             if rng.random() < 0.8:
@@ -1105,7 +1113,7 @@ class C16(Property):
             ops.append(["set", o, val(), expiry()])
         nb = 0
         if limit == 0 and rng.random() < 0.5:
-            nb = rng.randint(300, 640)
+            nb = rng.randint(300, 620)
             base = max(1000, (cols[0] if cols else 1000) - rng.randrange(nb))
             ops.append(["setseq", base, nb, val(), e1])
         for c in cols[:rng.randint(1, 3)]:
